@@ -150,23 +150,17 @@ def oracle(c, out, scales):
 def run(report, tier):
     E.setup_report(report, "C01")
     backends = ["f64", "dec"]
-    frontend.dump_repo_parallel(backends)
+    keys = E.dump_worlds(backends)
     pool = mpool.Pool()
     try:
-        desc = {be: pool.describe(be) for be in backends}
-        tasks = []
-        for be in backends:
-            d = desc[be]
-            for q in d["qty"]:
-                if d["has_ref"][q]:
-                    for fu in d["units"][q]:
-                        tasks.append((be, q, fu))
+        desc = E.describe_worlds(pool, keys)
+        tasks = E.ref_tasks(keys, desc)
         E.shuffle(tasks)
         report.bounds.update(E.bounds_box1())
-        report.bounds["types"] = {be: [q for q in desc[be]["qty"] if desc[be]["has_ref"][q]] for be in backends}
+        report.bounds["types"] = {label: [q for q in desc[label]["qty"] if desc[label]["has_ref"][q]] for label in desc}
         cands = pool.run(report, task, tasks)
+        pool.cross_check(report)
         E.native_confirm(report, "C01", cands, desc, oracle, probes=E.probe_amounts_1)
-        if tier == "thorough":
-            E.translator_validation(report, pool, desc, ops=("convert",))
+        E.translator_validation(report, pool, desc, ops=("convert",), full=(tier == "thorough"))
     finally:
         pool.close()
